@@ -303,7 +303,7 @@ fn main() {
     quiet_panics();
     let (epochs, batch, max_dump, freq_nodes, freq_draws, directed_styles, max_dump_directed) = if a.thorough() { (40usize, 6usize, 8000usize, 40usize, 4000usize, 5u64, 12000usize) } else { (14, 4, 5000, 16, 1500, 3u64, 7000usize) };
     run.rule = format!(
-        "{epochs} training epochs x {batch} trees from the real Blueprint::tree (empty profile at start, stand-in abstraction, traverser alternating, profile updated as Blueprint::solve does); every node of every tree goes through the clause-by-clause oracle; trees up to {max_dump} nodes are dumped for the Lean acceptor; opponent sampling: {freq_nodes} opponent nodes (menus of >= 3 edges preferred) x 2 policies (trained when non-uniform; skewed by verif_set_memory) x {freq_draws} epochs through the real explore_one, per-edge binomial 6 sigma against Profile::weight; actionize's f32 product checked for every pot <= 2*STACK x every grid odds. distinct = (tree, node)"
+        "{epochs} training epochs x {batch} trees from the real Blueprint::tree (empty profile at start, stand-in abstraction, traverser alternating, profile updated as Blueprint::solve does); every node of every tree goes through the clause-by-clause oracle; trees up to {max_dump} nodes are dumped for the Lean acceptor; opponent sampling: {freq_nodes} opponent nodes (menus of >= 3 edges preferred) x 2 policies (trained when non-uniform; skewed by verif_set_memory) x {freq_draws} epochs through the real explore_one, per-edge binomial 6 sigma against Profile::weight; plus {directed_styles} x 2 DIRECTED trees built on the real Tree::plant/fork + Encoder::branches + witness/explore_all with a scripted opponent (always min-raise / mostly raise / always call …) so that decision nodes deeper than the 16-edge window exist (dumped up to {max_dump_directed} nodes); plus trees at both sides of every phase boundary (Discount/Explore/Prune, epochs set by verif_set_epochs), in the Prune phase also after flooring the stored regret (<= REGRET_MIN) of some / all actions of root-level and deeper traverser buckets of the same forced deal; actionize's f32 product checked for every pot <= 2*STACK x every grid odds. distinct = (tree, node)"
     );
     // ---- the f32 product in Game::actionize equals floor(pot*num/den) (model assumption)
     for pot in 0..=(2 * STACK as i32) {
